@@ -441,7 +441,7 @@ type showcase struct {
 func drawShowcase(t *tape.Tape) *showcase {
 	sc := &showcase{}
 	add := func(a, b int) { sc.edges = append(sc.edges, [2]int{a, b}) }
-	switch t.Draw(6) {
+	switch t.Draw(12) {
 	case 0, 1, 2:
 		m := t.Range(5, 10)
 		k := 1 + t.Draw((m-1)/2)
@@ -469,14 +469,156 @@ func drawShowcase(t *tape.Tape) *showcase {
 				add(x*b+y, x*b+(y+1)%b)
 			}
 		}
+	case 5:
+		// Kneser / Johnson graphs on the 2-subsets of {0..v-1}
+		v := t.Range(5, 6)
+		johnson := t.Chance(1, 2)
+		var sub [][2]int
+		for a := 0; a < v; a++ {
+			for b := a + 1; b < v; b++ {
+				sub = append(sub, [2]int{a, b})
+			}
+		}
+		sc.n = len(sub)
+		sc.name = fmt.Sprintf("Kneser graph K(%d,2)", v)
+		if johnson {
+			sc.name = fmt.Sprintf("Johnson graph J(%d,2)", v)
+		}
+		for i := range sub {
+			for j := 0; j < i; j++ {
+				meet := sub[i][0] == sub[j][0] || sub[i][0] == sub[j][1] || sub[i][1] == sub[j][0] || sub[i][1] == sub[j][1]
+				if meet == johnson {
+					add(i, j)
+				}
+			}
+		}
+	case 6:
+		// hypercubes and the folded 5-cube (Clebsch graph)
+		d := t.Range(3, 4)
+		folded := d == 4 && t.Chance(1, 2)
+		sc.n, sc.name = 1<<uint(d), fmt.Sprintf("hypercube Q%d", d)
+		for x := 0; x < sc.n; x++ {
+			for b := 0; b < d; b++ {
+				if y := x ^ (1 << uint(b)); y < x {
+					add(x, y)
+				}
+			}
+			if y := x ^ (sc.n - 1); folded && y < x {
+				add(x, y)
+			}
+		}
+		if folded {
+			sc.name = "Clebsch graph (folded 5-cube)"
+		}
+	case 7:
+		q := []int{13, 17}[t.Draw(2)]
+		sc.n, sc.name = q, fmt.Sprintf("Paley graph on %d vertices", q)
+		sq := map[int]bool{}
+		for x := 1; x < q; x++ {
+			sq[x*x%q] = true
+		}
+		for x := 0; x < q; x++ {
+			for y := 0; y < x; y++ {
+				if sq[(x-y)%q] {
+					add(x, y)
+				}
+			}
+		}
+	case 8:
+		// Cayley graphs of Z4 x Z4: the rook graph and the Shrikhande graph (same parameters)
+		shr := t.Chance(1, 2)
+		sc.n, sc.name = 16, "rook graph K4 x K4"
+		if shr {
+			sc.name = "Shrikhande graph"
+		}
+		for x := 0; x < 16; x++ {
+			for y := 0; y < x; y++ {
+				dx, dy := ((x/4-y/4)+4)%4, ((x%4-y%4)+4)%4
+				var adj bool
+				if shr {
+					adj = (dx == 0 && (dy == 1 || dy == 3)) || (dy == 0 && (dx == 1 || dx == 3)) || (dx == 1 && dy == 1) || (dx == 3 && dy == 3)
+				} else {
+					adj = (dx == 0) != (dy == 0)
+				}
+				if adj {
+					add(x, y)
+				}
+			}
+		}
+	case 9:
+		// incidence graphs: Heawood (Fano plane), Pappus-like cyclic configurations
+		q, blk := 7, []int{0, 1, 3}
+		sc.name = "Heawood graph"
+		if t.Chance(1, 2) {
+			q, blk = 9, []int{0, 1, 3}
+			sc.name = "incidence graph of the cyclic configuration {0,1,3} mod 9"
+		}
+		sc.n = 2 * q
+		for l := 0; l < q; l++ {
+			for _, b := range blk {
+				add((l+b)%q, q+l)
+			}
+		}
 	default:
-		// circulant C_n(1, j)
-		n := t.Range(7, 16)
-		j := t.Range(2, n/2)
-		sc.n, sc.name = n, fmt.Sprintf("circulant C%d(1,%d)", n, j)
+		// circulants with one to three jumps
+		n := t.Range(7, 18)
+		jumps := map[int]bool{1 + t.Draw(n/2): true}
+		for k := t.Draw(3); k > 0; k-- {
+			jumps[1+t.Draw(n/2)] = true
+		}
+		var js []int
+		for j := 1; j <= n/2; j++ {
+			if jumps[j] {
+				js = append(js, j)
+			}
+		}
+		sc.n, sc.name = n, fmt.Sprintf("circulant C%d%v", n, js)
 		for i := 0; i < n; i++ {
-			add(i, (i+1)%n)
-			add(i, (i+j)%n)
+			for _, j := range js {
+				add(i, (i+j)%n)
+			}
+		}
+	}
+	// modifiers: complement, two disjoint copies, an extra isolated or universal vertex
+	switch t.Draw(8) {
+	case 0:
+		has := map[[2]int]bool{}
+		for _, e := range sc.edges {
+			a, b := e[0], e[1]
+			if a > b {
+				a, b = b, a
+			}
+			has[[2]int{a, b}] = true
+		}
+		sc.edges = nil
+		for b := 0; b < sc.n; b++ {
+			for a := 0; a < b; a++ {
+				if !has[[2]int{a, b}] {
+					add(a, b)
+				}
+			}
+		}
+		sc.name = "complement of " + sc.name
+	case 1:
+		if 2*sc.n <= 26 {
+			k := len(sc.edges)
+			for i := 0; i < k; i++ {
+				add(sc.edges[i][0]+sc.n, sc.edges[i][1]+sc.n)
+			}
+			sc.n *= 2
+			sc.name = "two copies of " + sc.name
+		}
+	case 2:
+		if sc.n < 26 {
+			if t.Chance(1, 2) {
+				for v := 0; v < sc.n; v++ {
+					add(v, sc.n)
+				}
+				sc.name += " + universal vertex"
+			} else {
+				sc.name += " + isolated vertex"
+			}
+			sc.n++
 		}
 	}
 	return sc
@@ -660,6 +802,9 @@ func runOne(r *driver.Run) {
 	}
 	M := N * (N - 1) / 2
 	nreq := t.Range(1, 14)
+	if show != nil && nreq > 8 {
+		nreq = 8
+	}
 	classRate := []int{0, 0, 1, 4}[t.Draw(4)]
 	interruptRate := []int{0, 2, 4}[t.Draw(3)]
 	r.Logf("service capacity N=%d M=%d, %d requests, class-rate=%d/8 interrupt-rate=%d/8", N, M, nreq, classRate, interruptRate)
@@ -831,7 +976,7 @@ func main() {
 		Property: "C02",
 		Engine:   "canon-service",
 		Level:    "exploration",
-		Rule: "a case is one seeded history of up to 14 labelling requests through ONE reused CanonicalStorage/CanonicalOrderedPartition/CanonicalOptions triple of tape-chosen capacity N <= 9 (one history in six: 10 <= N <= 16; one in 30: 21 <= N <= 28; one in six is a 'showcase': a generalised Petersen graph GP(5..10,k), Moebius ladder, torus or circulant on up to 20 vertices asked again and again under fresh relabellings): graph sizes go up and down within capacity; families: edgeless, complete, cycle, complete bipartite, complete multipartite, unions of cliques and their complements, rook graphs, random regular graphs (half of them only 0-3 switches away from a circulant), named symmetric graphs (hypercubes, Petersen and generalised Petersen graphs, prisms, Moebius ladders, tori, Paley graphs) with 0-2 edge switches and sometimes one pair toggled, two copies of a random graph, circulants, planted automorphisms, relabelled copy of the previous graph, random densities; some requests carry vertex classes (an ordered partition, classes ascending) and some are 'interrupted' (CheckViability with tape-drawn ViableBits, which may return early and leave the partition mid-search before the next Reset). " +
+		Rule: "a case is one seeded history of up to 14 labelling requests through ONE reused CanonicalStorage/CanonicalOrderedPartition/CanonicalOptions triple of tape-chosen capacity N <= 9 (one history in six: 10 <= N <= 16; one in 30: 21 <= N <= 28; one in six is a 'showcase': a generalised Petersen graph GP(5..10,k), Moebius ladder, torus, Kneser/Johnson graph, hypercube, Clebsch, Paley, rook/Shrikhande, Heawood or circulant graph - possibly complemented, doubled or with an extra isolated/universal vertex, up to 26 vertices - asked again and again under fresh relabellings): graph sizes go up and down within capacity; families: edgeless, complete, cycle, complete bipartite, complete multipartite, unions of cliques and their complements, rook graphs, random regular graphs (half of them only 0-3 switches away from a circulant), named symmetric graphs (hypercubes, Petersen and generalised Petersen graphs, prisms, Moebius ladders, tori, Paley graphs) with 0-2 edge switches and sometimes one pair toggled, two copies of a random graph, circulants, planted automorphisms, relabelled copy of the previous graph, random densities; some requests carry vertex classes (an ordered partition, classes ascending) and some are 'interrupted' (CheckViability with tape-drawn ViableBits, which may return early and leave the partition mid-search before the next Reset). " +
 			"Each answer must equal the same call on fresh storage and CanonicalIsomorphFull (perm, orbit partition, generator list), perm must be a permutation, and for groups of up to 60000 elements brute force over all (class-preserving) automorphisms must confirm orbits = orbits of Aut(g), every generator in Aut(g), closure of the generators = Aut(g). Non-trivial = at least 3 requests with at least one size change; distinct = distinct fingerprints of the observed answers.",
 		Assumptions: []string{
 			"the caller protocol of the search package is followed: Reset(n, m, classes) before every call, sizes within the capacity the pair was created with, n >= 1",
